@@ -2,7 +2,7 @@
 (* Model-checking instance of Pool.tla (no history variable). *)
 EXTENDS Pool
 
-AllD == {"D1", "D2", "D3", "D4", "D5", "D11", "D13"}
+AllD == {"D1", "D2", "D3", "D4", "D5", "D11", "D13", "D17"}
 NoFaults == {}
 AllFaults == {"connect", "handshake", "close", "upgrade"}
 SomeFaults == {"connect", "handshake", "close"}
